@@ -396,9 +396,37 @@ _base_check_c10 = check
 def check(ctx):            # noqa: F811  (extends the rules above with the completeness half)
     _base_check_c10(ctx)
     framing(ctx, ctx.prog)
+    decorators(ctx, ctx.prog)
     # "a client requesting a blob from a server that holds it ends with the verified blob": the announced length of every legal blob (up to and
     # including 2 MiB) must be adoptable, and what the writer accepts is C01's business — those rule instances are evaluated here as well
-    R.share(ctx, "C01", {"C01-D4": "C10-D7", "C01-D5/GATE": "C10-D7/GATE"})
+    R.share(ctx, "C01", {"C01-D4": "C10-D7", "C01-D5/GATE": "C10-D7/GATE", "C01-D6/AWAIT": "C10-D7/AWAIT", "C01-D6/DEP": "C10-D7/DEP", "C01-D6/OVERRIDE": "C10-D7/OVERRIDE",
+                        "C01-D5/ORDER": "C10-D7/ORDER"})
+
+
+def decorators(ctx, prog):
+    """request_blob and BlobDownloader.download_blob run behind @cache_concurrent: concurrent identical calls share one task.  The shared entry must go
+    away when that task ends IN ANY WAY (result, exception, cancellation) — a leftover entry answers every later identical request with the old
+    failure and the now honest peer is never asked again."""
+    w = ctx.fa("lbry.utils.cache_concurrent.<locals>.wrapper")
+    pops = [c for c in w.calls(name="pop") if dotted(c.func.value) == "cache"]
+    ctx.floor("C10-D8/CLEANUP", "cache_concurrent drops its in-flight entry", len(pops), 1, site=w.site(), func=w.fi.qualname)
+    aws = [a for a in w.local_nodes(ast.Await)]
+    tries = w.stmts(ast.Try)
+    for pc in pops:
+        st = R.stmt_of(pc)
+        t = next((t for t in tries if any(x is st for fb in t.finalbody for x in ast.walk(fb))), None)
+        ok = t is not None and bool(aws) and all(any(x is a for b in t.body for x in ast.walk(b)) for a in aws)
+        ctx.ob("C10-D8/CLEANUP", ok, w.site(pc), "the in-flight entry is dropped in a `finally` that covers the await of the shared task (also on exception / cancellation)",
+               func=w.fi.qualname, key="C10-D8/CLEANUP|cache_concurrent|finally")
+        ok = len(pc.args) == 2 and dotted(pc.args[0]) == "key" and is_const(pc.args[1], None)
+        ctx.ob("C10-D8/CLEANUP", ok, w.site(pc), "dropping is tolerant (pop(key, None)): the second of two sharers must not fail", func=w.fi.qualname, key="C10-D8/CLEANUP|cache_concurrent|tolerant")
+    ks = [s for s in w.stmts(ast.Assign) if len(s.targets) == 1 and dotted(s.targets[0]) == "key"]
+    ok = len(ks) == 1 and unparse(ks[0].value) == "(args, tuple(kwargs.items()))"
+    ctx.ob("C10-D8/DEP", ok, w.site(), "the sharing key is all positional and keyword arguments (two different peers / blobs never share a task)", func=w.fi.qualname, key="C10-D8/DEP|cache_concurrent|key")
+    for q in ("lbry.blob_exchange.client.request_blob", "lbry.blob_exchange.downloader.BlobDownloader.download_blob"):
+        f = prog.func(q)
+        ctx.ob("C10-D8/DEP", "cache_concurrent" in f.decorators(), f.site(), f"{f.name} is wrapped by cache_concurrent (the rule above is about this function's callers)", func=q,
+               key=f"C10-D8/DEP|{q}|decorated")
 
 
 def framing(ctx, prog):
